@@ -9,7 +9,7 @@ D4 no time-based recovery in classic (shared with C06.D5);
 D5 no other influence on the route: every non-scheduler source of the routing index is guarded by !classic.
 """
 from ..absint import AbsInt, Entry, Num
-from ..ctx import CONN, is_call, is_field, sname
+from ..ctx import CONN, is_call, is_field, sname, some_of
 from ..expr import show, walk
 from ..pathcond import calls_to, field_stores
 from . import C03, C06
@@ -139,7 +139,7 @@ def d3_window_rules(ctx):
         for s in st:
             pc = pa.pc_at(s.bb, s.si)
             c1 = [fm for (a, fm) in pa.find(lambda a: is_field(a, "connected", CONN))]
-            c2 = [fm for (a, fm) in pa.find(lambda a: is_call(a, name_contains="Option::<T>::is_some") and is_field(a[2][0], "last_received", CONN))]
+            c2 = [fm for (a, fm) in some_of(pa, lambda x: is_field(x, "last_received", CONN))]
             ok = bool(c1) and bool(c2) and pa.entails(pc, c1[0]) and pa.entails(pc, c2[0]) and \
                 pa.entails(pa.bdd.AND(c1[0], c2[0]), pc)
             ctx.chk.ob("D3", "global +1 applies exactly when connected & last_received.is_some()", ok, "PC = %s" % pa.show(pc), key="D3:global-ack-guard")
